@@ -2109,14 +2109,17 @@ func marshalTuple(info TypeInfo, value interface{}) ([]byte, error) {
 	return nil, marshalErrorf("cannot marshal %T into %s", value, tuple)
 }
 
-func readBytes(p []byte) ([]byte, []byte) {
+func readBytes(p []byte) ([]byte, []byte, error) {
 	// TODO: really should use a framer
-	size := readInt(p)
+	size := int(readInt(p))
 	p = p[4:]
 	if size < 0 {
-		return nil, p
+		return nil, p, nil
 	}
-	return p[:size], p[size:]
+	if size > len(p) {
+		return nil, nil, unmarshalErrorf("field of %d bytes exceeds the %d bytes of data left", size, len(p))
+	}
+	return p[:size], p[size:], nil
 }
 
 // currently only support unmarshal into a list of values, this makes it possible
@@ -2134,7 +2137,10 @@ func unmarshalTuple(info TypeInfo, data []byte, value interface{}) error {
 			// each element inside data is a [bytes]
 			var p []byte
 			if len(data) >= 4 {
-				p, data = readBytes(data)
+				var rerr error
+				if p, data, rerr = readBytes(data); rerr != nil {
+					return rerr
+				}
 			}
 			err := Unmarshal(elem, p, v[i])
 			if err != nil {
@@ -2163,7 +2169,10 @@ func unmarshalTuple(info TypeInfo, data []byte, value interface{}) error {
 		for i, elem := range tuple.Elems {
 			var p []byte
 			if len(data) >= 4 {
-				p, data = readBytes(data)
+				var rerr error
+				if p, data, rerr = readBytes(data); rerr != nil {
+					return rerr
+				}
 			}
 
 			if f := rv.Field(i); f.Kind() != reflect.Interface {
@@ -2199,7 +2208,10 @@ func unmarshalTuple(info TypeInfo, data []byte, value interface{}) error {
 		for i, elem := range tuple.Elems {
 			var p []byte
 			if len(data) >= 4 {
-				p, data = readBytes(data)
+				var rerr error
+				if p, data, rerr = readBytes(data); rerr != nil {
+					return rerr
+				}
 			}
 
 			if f := rv.Index(i); f.Kind() != reflect.Interface {
@@ -2347,7 +2359,10 @@ func unmarshalUDT(info TypeInfo, data []byte, value interface{}) error {
 			}
 
 			var p []byte
-			p, data = readBytes(data)
+			var rerr error
+			if p, data, rerr = readBytes(data); rerr != nil {
+				return rerr
+			}
 			if err := v.UnmarshalUDT(e.Name, e.Type, p); err != nil {
 				return err
 			}
@@ -2390,7 +2405,10 @@ func unmarshalUDT(info TypeInfo, data []byte, value interface{}) error {
 			val := reflect.New(valType)
 
 			var p []byte
-			p, data = readBytes(data)
+			var rerr error
+			if p, data, rerr = readBytes(data); rerr != nil {
+				return rerr
+			}
 
 			if err := Unmarshal(e.Type, p, val.Interface()); err != nil {
 				return err
@@ -2440,7 +2458,10 @@ func unmarshalUDT(info TypeInfo, data []byte, value interface{}) error {
 		}
 
 		var p []byte
-		p, data = readBytes(data)
+		var rerr error
+		if p, data, rerr = readBytes(data); rerr != nil {
+			return rerr
+		}
 
 		f, ok := fields[e.Name]
 		if !ok {
